@@ -76,6 +76,11 @@ def generate(rng: random.Random, batch: dict, depth: int = 0) -> dict:
     if rng.random() < 0.012:
         inst = packgen.gen_huge_bin(rng)
         items = inst["items"]
+    elif rng.random() < 0.015:
+        # few items nearly as large as a bin with sides around 1e5: item
+        # and per-bin areas around and beyond 2**31
+        inst = packgen.gen_large_items_bin(rng)
+        items = inst["items"]
     if rng.random() < 0.2:
         # bins filled exactly + one tiny item alone in the last bin: the
         # packing whose value sits right at the declared lower bound
@@ -131,7 +136,15 @@ def directed(tier: str) -> list:
                 ops.append({"op": "evaluate", "obj": o, "pack": p})
             ops.append({"op": "scribble_temp", "kind": "extreme",
                         "seed": 5 + rep})
-    return [{"inst": inst, "packs": packs, "buffers": 1, "ops": ops},
+    large = {"inst": {"W": 60000, "H": 60000,
+                      "items": [[50000, 50000, 1], [48000, 48000, 2]]},
+             "packs": [{"x": [1, 2, 2], "encoder": 1, "edits": []},
+                       {"x": [2, -1, 2], "encoder": 2,
+                        "edits": [{"kind": "shuffle_rows", "seed": 4}]}],
+             "buffers": 1,
+             "ops": [{"op": "evaluate", "obj": o, "pack": p}
+                     for o in NAMES for p in (0, 1)]}
+    return [{"inst": inst, "packs": packs, "buffers": 1, "ops": ops}, large,
             {"inst": {"resource": "a04"},
              "packs": [{"x": [1] * 8 + [2] * 8, "encoder": 1, "edits": []},
                        {"x": [2] * 8 + [-1] * 8, "encoder": 2,
